@@ -35,6 +35,7 @@ ASSUMPTIONS = [
     "recursive input objects are not generated (defect S1 makes extend_schema recurse forever on them)",
     "steps rejected by schema validation (SchemaValidationError / ExtensionError / SDLError) produce no schema; their side effects on the heap are still compared; any other exception, a plain SchemaError included, is a failure of the derivation",
     "about half of the object types of a source get their resolvers through the schema's registries; 12% of the sources hold one or two type objects that are instances of an application-defined subclass of ObjectType / InterfaceType / InputObjectType",
+    "default values are opaque to the heap model (`dflt` = repr of the coerced value): the steps sent to the model add no input field WITH a default and remove no enum value / input field a default mentions through an extension, so `ArgKept.dflt` (the default is kept) is what the code does; defaults that must CHANGE (an extension adding a defaulted input field, T15) or that mention removed members (T13, T14) are checked by the direct oracle only (`default_cases`, `directive_cases`)",
     "resolver identity is by function object (every resolver of the harness is a distinct function with a stable id); the registry model compares these ids",
 ]
 TRUSTED = [
@@ -258,7 +259,9 @@ def gen_visibility(rng, schema):
         v["fields"] = sorted(rng.sample(fcand, rng.randint(1, min(3, len(fcand)))))
     icand = [(n, f.name) for n, t in schema.types.items() if isinstance(t, InputObjectType) for f in t.fields]
     if icand and rng.random() < 0.4:
-        v["inputs"] = sorted(rng.sample(icand, 1))
+        mentioned = sorted({(b.name, f.name) for _, el, b in _defaulted_members(schema) if isinstance(b, InputObjectType)
+                            and isinstance(el.default_value, dict) for f in b.fields if f.python_name in el.default_value})
+        v["inputs"] = sorted(rng.sample(mentioned if mentioned and rng.random() < 0.5 else icand, 1))
     dcand = [d.name for d in schema.directives.values() if d not in SPECIFIED_DIRECTIVES]
     if dcand and rng.random() < 0.4:
         v["dirs"] = [rng.choice(dcand)]
@@ -532,6 +535,12 @@ def apply_step(step, schemas, funcs):
     from py_gql.schema.transforms import transform_schema
     from py_gql.sdl import extend_schema
     src = schemas[step["src"]]
+    for v in step.get("visitors", []):
+        for t, f in v.get("inputs", []) if v["k"] == "visibility" else []:
+            ty = src.types.get(t)
+            fo = next((x for x in getattr(ty, "fields", []) if x.name == f), None) if ty is not None else None
+            if fo is not None:
+                step.setdefault("hidden_input_py", {})["%s.%s" % (t, f)] = fo.python_name
     try:
         if step["op"] == "clone":
             return src.clone(), "ok"
@@ -810,6 +819,13 @@ def check_hidden_live(step, result, fail, intro=None):
     for d in hid_d:
         if d in dirs:
             fail("hidden-reachable:directive:introspection", "hidden directive @%s visible" % d)
+    # no default value hands a hidden input field to resolvers
+    for (t, f) in sorted(hid_i):
+        py = (step.get("hidden_input_py") or {}).get("%s.%s" % (t, f))
+        for w, el, b in _defaulted_members(result):
+            if py is not None and b.name == t and isinstance(el.default_value, dict) and py in el.default_value:
+                fail("hidden-reachable:input-field:default",
+                     "input field %s.%s is hidden, yet the default value of %s still carries it (%r)" % (t, f, w, py))
     # a real query selecting a hidden root field must be refused
     q = result.query_type
     for (t, f) in sorted(hid_f | dropped):
@@ -995,6 +1011,119 @@ def directive_cases(ctx, source, funcs, rng, fail):
         fail("hidden-reachable:enum-value:default:introspection",
              "enum value %s.%s was removed by a visitor but a default value still names it: the introspection query fails with %s"
              % (en, val, str(errs)[:200]))
+
+
+def _defaulted_members(schema):
+    """[(where, element, base type)] for every argument / input field of the schema that has a default value."""
+    from py_gql.schema import InputObjectType, InterfaceType, ObjectType, unwrap_type
+    out = []
+    for n, t in schema.types.items():
+        if n.startswith("__"):
+            continue
+        if isinstance(t, (ObjectType, InterfaceType)):
+            out += [("%s.%s(%s:)" % (n, f.name, a.name), a, unwrap_type(a.type)) for f in t.fields for a in f.arguments if a.has_default_value]
+        elif isinstance(t, InputObjectType):
+            out += [("%s.%s" % (n, f.name), f, unwrap_type(f.type)) for f in t.fields if f.has_default_value]
+    return out
+
+
+def default_cases(ctx, source, sdl, rng, fail):
+    """Default values and the types they are values OF (direct oracle only, no model step):
+    (1) an extension whose new default uses a member (enum value / input field) the same extension adds must be accepted;
+    (2) after `extend input In { c14_b: Int = 5 }` an existing default written `{…}` of type In is the value of that literal in
+        the EXTENDED In (it has c14_b = 5), as it is for a schema built from the merged document;
+    (3) the same through build_schema: a default of the base document using a member added by an `extend` of that document;
+    (4) a visibility transform hiding an input field: no default value hands the hidden field to resolvers."""
+    from py_gql import build_schema
+    from py_gql.exc import SDLError
+    from py_gql.schema import EnumType, InputObjectType, NonNullType
+    from py_gql.schema.transforms import VisibilitySchemaTransform, transform_schema
+    from py_gql.sdl import extend_schema
+    q = source.query_type.name
+    enums = sorted(n for n, t in source.types.items() if isinstance(t, EnumType) and not n.startswith("__"))
+    inputs = sorted(n for n, t in source.types.items() if isinstance(t, InputObjectType))
+    if enums:
+        e = rng.choice(enums)
+        doc = "extend enum %s { C14_NEW }\nextend type %s { c14_g(m: %s = C14_NEW): Int }" % (e, q, e)
+        ctx.count()
+        ctx.stat("default-case:extension-default-uses-added-enum-value")
+        try:
+            r = extend_schema(source, doc)
+            got = r.types[q].field_map["c14_g"].arguments[0].default_value
+            if got != "C14_NEW":
+                fail("preserved:extend:default:added-member", "default C14_NEW of the new argument is %r" % (got,))
+        except SDLError as x:
+            fail("step-raises:extend:default-uses-member-added-by-the-extension",
+                 "extend_schema refused %r: %s" % (doc, x))
+        ctx.count()
+        ctx.stat("default-case:build_schema-default-uses-extension-member")
+        try:
+            build_schema(sdl + "\nextend enum %s { C14_NEW }\ntype C14Holder { h(m: %s = C14_NEW): Int }\n" % (e, e))
+        except SDLError as x:
+            fail("step-raises:build_schema:default-uses-extension-member",
+                 "build_schema refused a document whose default uses an enum value added by an `extend enum` of the same document: %s" % x)
+    if inputs:
+        used = sorted({b.name for _, el, b in _defaulted_members(source) if isinstance(b, InputObjectType) and isinstance(el.default_value, dict)})
+        i = rng.choice(used if used and rng.random() < 0.8 else inputs)
+        doc = "extend input %s { c14_b: Int = 5 }\nextend type %s { c14_h(m: %s = {c14_b: 1}): Int }" % (i, q, i)
+        ctx.count()
+        ctx.stat("default-case:extension-default-uses-added-input-field")
+        try:
+            r = extend_schema(source, doc)
+        except SDLError as x:
+            r = None
+            # (a required field of the input type without default makes `{c14_b: 1}` invalid: not a defect)
+            if not any(isinstance(f.type, NonNullType) and not f.has_default_value for f in source.types[i].fields):
+                fail("step-raises:extend:default-uses-member-added-by-the-extension", "extend_schema refused %r: %s" % (doc, x))
+        try:
+            r = extend_schema(source, "extend input %s { c14_b: Int = 5 }" % i)
+        except SDLError:
+            r = None
+        if r is not None:
+            ctx.count()
+            olds = [w for w, el, b in _defaulted_members(source) if b is source.types[i] and isinstance(el.default_value, dict)]
+            if olds:
+                ctx.stat("default-case:existing-default-of-the-extended-input-type")
+            # (only defaults that still ARE the value of their literal: python names assigned in code after the schema was built
+            #  change the keys of a coerced input object, such a default is no longer the value of what the document says)
+            from py_gql.utilities import value_from_ast
+            faithful = set()
+            for w, el, b in _defaulted_members(source):
+                try:
+                    if el.node is not None and el.node.default_value is not None and value_from_ast(el.node.default_value, el.type) == el.default_value:
+                        faithful.add(w)
+                except Exception:  # noqa
+                    pass
+            stale = [w for w, el, b in _defaulted_members(r)
+                     if w in faithful and b is r.types[i] and isinstance(el.default_value, dict) and "c14_b" not in el.default_value]
+            if stale:
+                fail("preserved:extend:default:stale-after-input-extension",
+                     "after `extend input %s { c14_b: Int = 5 }` the default of %s is still the value coerced against the old %s "
+                     "(no c14_b): resolvers get a different value for the default than for the same literal" % (i, stale[0], i))
+    # (4)
+    cands = []
+    for w, el, b in _defaulted_members(source):
+        if isinstance(b, InputObjectType) and isinstance(el.default_value, dict):
+            for f in b.fields:
+                if f.python_name in el.default_value and len(b.fields) > 1:
+                    cands.append((b.name, f.name, f.python_name))
+    if cands:
+        tn, fn_, py = rng.choice(sorted(set(cands)))
+
+        class Hide(VisibilitySchemaTransform):
+            def is_input_field_visible(self, t, f):
+                return (t, f) != (tn, fn_)
+        try:
+            r = transform_schema(source, Hide())
+        except Exception:  # noqa  (refusing is one acceptable policy)
+            return
+        ctx.count()
+        ctx.stat("default-case:hidden-input-field-mentioned-by-a-default")
+        left = [w for w, el, b in _defaulted_members(r) if b.name == tn and isinstance(el.default_value, dict) and py in el.default_value]
+        if left:
+            fail("hidden-reachable:input-field:default",
+                 "input field %s.%s is hidden, yet the default value of %s still carries it (%r): `{ field }` hands it to the resolver"
+                 % (tn, fn_, left[0], py))
 
 
 def one_sequence(ctx, seed_note, size, n_steps, steps=None, build_seed=None):
@@ -1230,6 +1359,7 @@ def one_sequence(ctx, seed_note, size, n_steps, steps=None, build_seed=None):
             if not any(s0 == sig for s0, _ in failures + extra):
                 extra.append((sig, what))
         directive_cases(ctx, source, funcs, random.Random(seed ^ 0xD1EC), fail_extra)
+        default_cases(ctx, source, sdl, random.Random(seed ^ 0xDEFA), fail_extra)
         if W.dump_differs(dumper, source, base_raw):
             fail_extra("frame:source-modified:schema-directive-case", "the source changed while schema directives were applied to a clone of it")
         failures += extra
@@ -1289,7 +1419,7 @@ def run(ctx):
     ctx.extra["code_variant"] = cfg
     ctx._c14_cfg = cfg
     ctx._c14_reg_cases = []
-    n_seq = ctx.n(40, 420)
+    n_seq = ctx.n(40, 380)
     budget_each = 0.8
     batch = []
     seen_sigs = set()
